@@ -9,7 +9,7 @@ from gev import core, grammars, refmodel, stream, workload
 
 PROPERTY = "C10"
 LEVEL = "fault_enumeration"
-TECHNIQUE = "runtime monitor: mutation-recording list/dict subclasses installed inside a live Grammar (tripwires with the writer's stack) plus full fingerprints of the grammar before/after every API call, under workloads that force internal backtracking and failures (infeasible dependent refinements, fault-injecting metahandlers raising SynthesisException on scripted patterns, infeasible depth limits)"
+TECHNIQUE = "runtime monitor: mutation-recording list/dict subclasses installed inside a live Grammar (tripwires with the writer's stack) plus full fingerprints of the grammar before/after every API call, under workloads that force internal backtracking and failures (infeasible dependent refinements, fault-injecting metahandlers raising SynthesisException on scripted patterns, infeasible depth limits); and a behavioural echo after each session: the used Grammar object must create, seed for seed, exactly what a freshly extracted grammar over the same classes creates"
 RULE = (
     "cases = (grammar whose dependent refinements or fault-injecting metahandler make productions infeasible in some contexts, representation, "
     "decider, seed, op sequence incl. failing ops and short searches); fault pattern = the metahandler raises on every k-th call, k in 1..5; "
